@@ -25,8 +25,20 @@ def arith_selftest():
     return True
 
 
+def minimalloc_stub_selftest():
+    """The injected stand-in must reproduce the upstream expectation of snax-allocate-minimalloc.mlir (offsets 0, 20, 0)."""
+    import os
+
+    sys.path.insert(0, os.path.join(os.path.dirname(os.path.abspath(__file__)), "stubs"))
+    from minimalloc import Buffer, Problem
+
+    bufs = [Buffer("a", 2, 6, 13, 10), Buffer("b", 4, 7, 13, 10), Buffer("c", 8, 10, 13, 14)]
+    assert Problem(bufs, 100).solve() == [0, 20, 0]
+
+
 def main():
     arith_selftest()
+    minimalloc_stub_selftest()
     print("selftest ok")
 
 
